@@ -9,8 +9,14 @@ import (
 	"math/rand"
 	"os"
 	"path/filepath"
+	"runtime"
 	"sort"
+	"sync"
+	"sync/atomic"
 	"testing"
+
+	"github.com/alecthomas/units"
+	"github.com/prometheus/client_golang/prometheus"
 
 	"github.com/prometheus/client_golang/prometheus/testutil"
 	"google.golang.org/grpc/codes"
@@ -61,7 +67,8 @@ func vfc09Limits(rng *rand.Rand, n int) []uint64 {
 func TestVF_C09(t *testing.T) {
 	r := vfkit.Start(t, "C09")
 	defer r.Finish()
-	r.Rule("case = one generated fixture (1..3 raw blocks incl. replica/overlapping blocks) served by one BucketStore (index cache none/large, small series-size estimate so that lazy expanded postings trigger) x generated requests (40% series-only, SkipChunks=true). " +
+	r.Rule("part 1: concurrent limiter rounds - one real series / chunks / bytes limiter per round, 2..6 goroutines (the per-block goroutines of one Series call) reserve 1..40 times each and stop at their first error, limits at total-1, total, total+1, total/2, total/4, 1, GOMAXPROCS cycled 2/4/8/16; oracle: granted reservations never add up to more than the limit and an over-subscribed limiter rejects somebody; non-trivial = round in which reservations overlapped. " +
+		"part 2: case = one generated fixture (1..3 raw blocks incl. replica/overlapping blocks) served by one BucketStore (index cache none/large, small series-size estimate so that lazy expanded postings trigger) x generated requests (40% series-only, SkipChunks=true). " +
 		"Each request is first answered without limits (true N_series, N_chunks of the merged answer), then re-issued with series and/or chunk limits drawn from {N-1, N, N+1, 1, 2N, N/2}; lazy-postings settings and series batch size (1,2,10000) are drawn per request. " +
 		"oracle: a successful limited call returns at most limit series/chunks and exactly the unlimited answer; if N exceeds a limit the call must fail and the gRPC code must be ResourceExhausted. Failing although N <= limit is counted, not flagged " +
 		"(limiters reserve per block before merging and, on the eager path, before time filtering). evaluation = one limited call; distinct/non-trivial = limited call on a request with N_series > 0")
@@ -69,10 +76,103 @@ func TestVF_C09(t *testing.T) {
 	nReq := r.N(34, 100)
 	r.Require(int64(nFix*nReq*2), nFix*nReq/2)
 	r.Assume("limit 0 means unlimited (documented); the unlimited answer of the same store instance is the true answer (its correctness is C10's subject)")
+	vfc09LimiterRounds(r, r.N(4000, 60000))
 	base := t.TempDir()
 	vfc07Parallel(r, nFix, 4, func(c int) {
 		vfc07Guard(r, c, "c09-fixture", func() { vfc09RunFixture(t, r, c, r.Rand(c), nReq, filepath.Join(base, fmt.Sprintf("case%d", c))) })
 	})
+}
+
+// vfc09LimiterRounds drives the real limiters the way one BucketStore.Series call does: one limiter
+// per request, several goroutines (one per block) reserving concurrently and giving up at their first
+// error. Whatever the schedule, the reservations that were granted must not add up to more than the limit.
+func vfc09LimiterRounds(r *vfkit.Run, n int) {
+	prev := runtime.GOMAXPROCS(0)
+	defer runtime.GOMAXPROCS(prev)
+	procs := []int{2, 4, 8, 16}
+	overlapping := 0
+	for i := 0; i < n; i++ {
+		if !r.Want(1_000_000 + i) && r.Replaying() {
+			continue
+		}
+		if i%200 == 0 {
+			runtime.GOMAXPROCS(procs[(i/200)%len(procs)])
+		}
+		rng := r.RandS("limiter", i)
+		g := 2 + rng.Intn(5)
+		nums := make([][]uint64, g)
+		var total uint64
+		for k := range nums {
+			for j := 0; j < 1+rng.Intn(40); j++ {
+				v := uint64(1 + rng.Intn(3))
+				nums[k] = append(nums[k], v)
+				total += v
+			}
+		}
+		limit := []uint64{total - 1, total, total + 1, total/2 + 1, total/4 + 1, 1}[rng.Intn(6)]
+		if limit == 0 {
+			limit = 1
+		}
+		ctr := prometheus.NewCounter(prometheus.CounterOpts{Name: "vfc09_failed"})
+		kind := []string{"series", "chunks", "bytes"}[i%3]
+		var reserve func(uint64) error
+		switch kind {
+		case "series":
+			l := NewSeriesLimiterFactory(limit)(ctr)
+			reserve = l.Reserve
+		case "chunks":
+			l := NewChunksLimiterFactory(limit)(ctr)
+			reserve = l.Reserve
+		default:
+			l := NewBytesLimiterFactory(units.Base2Bytes(limit))(ctr)
+			reserve = func(v uint64) error { return l.ReserveWithType(v, ChunksFetched) }
+		}
+		var granted, inflight, maxInflight atomic.Int64
+		var rejected atomic.Bool
+		start := make(chan struct{})
+		var wg sync.WaitGroup
+		for k := range nums {
+			wg.Add(1)
+			go func(mine []uint64) {
+				defer wg.Done()
+				<-start
+				for _, v := range mine {
+					if c := inflight.Add(1); c > maxInflight.Load() {
+						maxInflight.Store(c)
+					}
+					err := reserve(v)
+					inflight.Add(-1)
+					if err != nil {
+						rejected.Store(true)
+						return
+					}
+					granted.Add(int64(v))
+				}
+			}(nums[k])
+		}
+		close(start)
+		wg.Wait()
+		r.Eval(1)
+		if maxInflight.Load() > 1 {
+			overlapping++
+			r.Distinct(fmt.Sprintf("limiter|%s|%d|%d|%d", kind, g, total, limit))
+		}
+		switch {
+		case uint64(granted.Load()) > limit:
+			r.Violation(1_000_000+i, "limiter-concurrent-overshoot:"+kind,
+				fmt.Sprintf("%d goroutines reserving concurrently from one %s limiter with limit %d were granted %d in total", g, kind, limit, granted.Load()),
+				map[string]any{"round": i, "kind": kind, "goroutines": g, "limit": limit, "requested_total": total, "granted_total": granted.Load(), "gomaxprocs": runtime.GOMAXPROCS(0)})
+		case total > limit && !rejected.Load():
+			r.Violation(1_000_000+i, "limiter-concurrent-no-rejection:"+kind,
+				fmt.Sprintf("%d goroutines requested %d in total from a %s limiter with limit %d and none was rejected", g, total, kind, limit),
+				map[string]any{"round": i, "kind": kind, "goroutines": g, "limit": limit, "requested_total": total})
+		}
+	}
+	r.Count("limiter_rounds", n)
+	r.Count("limiter_rounds_with_overlapping_reservations", overlapping)
+	if !r.Replaying() && overlapping < n/10 {
+		r.Inconclusive(fmt.Sprintf("only %d of %d concurrent limiter rounds had overlapping reservations", overlapping, n))
+	}
 }
 
 func vfc09Tune(rng *rand.Rand, st *BucketStore) string {
